@@ -11,6 +11,7 @@ package sched
 import (
 	"bytes"
 	"fmt"
+	"os"
 	"runtime"
 	"sort"
 	"strconv"
@@ -347,3 +348,16 @@ func Yield() { Point(OpAtomic, KNone, nil, nil) }
 // happens-before edges for the race detector: only the real primitive's edges count.
 func HideBegin() { raceDisable() }
 func HideEnd()   { raceEnable() }
+
+// UnlockPoints: when set (VERIF_UNLOCK_POINTS=1), every release of a lock is followed by a scheduling
+// point, so that another thread can run between a release and the code that follows it (windows in
+// which a thread works on shared state after it let go of the lock). Off by default: acquisitions
+// and atomics suffice for data-race detection, and the extra points double the schedule space.
+var UnlockPoints = os.Getenv("VERIF_UNLOCK_POINTS") == "1"
+
+// AfterUnlock is called by the shims after every release.
+func AfterUnlock() {
+	if UnlockPoints {
+		Yield()
+	}
+}
